@@ -146,6 +146,31 @@ def make_service(main, T, outcome: str, n_out: int, record: List[Tuple[str, List
                     if outcome.startswith("err"):
                         raise err()
                     return respond(T, m, reqs, 1)[0]
+            elif outcome in ("returns-aiter-object", "returns-channel") and not cstream:
+                def handler(self, arg):
+                    record.append((m, [arg]))
+                    outs = respond(T, m, [arg], n_out)
+                    if outcome == "returns-channel":
+                        from betterproto.grpc.util.async_channel import AsyncChannel
+                        ch = AsyncChannel()
+
+                        async def feed():
+                            await ch.send_from(outs, close=True)
+                        asyncio.ensure_future(feed())
+                        return ch
+
+                    class Iter:
+                        def __init__(self):
+                            self.items = list(outs)
+
+                        def __aiter__(self):
+                            return self
+
+                        async def __anext__(self):
+                            if not self.items:
+                                raise StopAsyncIteration
+                            return self.items.pop(0)
+                    return Iter()
             elif outcome == "returns-without-yield" and not cstream:
                 def handler(self, arg):
                     # a server-streaming method that "just returns": calling it gives a coroutine,
@@ -195,7 +220,14 @@ async def call(stub, py: str, cstream: bool, sstream: bool, reqs: List[Any], as_
     else:
         arg = reqs[0]
     if sstream:
-        return [x async for x in fn(arg, **kw)]
+        got = []
+        try:
+            async for x in fn(arg, **kw):
+                got.append(x)
+        except grpclib.GRPCError as e:
+            e.partial_responses = got  # what the caller saw before the status arrived
+            raise
+        return got
     return [await fn(arg, **kw)]
 
 
@@ -259,6 +291,9 @@ async def one_case(case: Dict[str, Any]) -> List[Tuple[str, str]]:
     if outcome == "not-overridden":
         if raised is None or raised.status != Status.UNIMPLEMENTED:
             out.append(("unimplemented", f"not overridden {m}: got {got!r} / {raised!r}"[:300]))
+        elif getattr(raised, "partial_responses", None):
+            out.append(("unimplemented-after-responses",
+                        f"not overridden {m}: caller received {raised.partial_responses!r} before UNIMPLEMENTED"[:300]))
         if record:
             out.append(("invocations", f"a handler ran although none is overridden: {record!r}"[:200]))
         return out
@@ -275,6 +310,12 @@ async def one_case(case: Dict[str, Any]) -> List[Tuple[str, str]]:
             out.append(("status", f"{m}: handler raised {want_status}, caller got {got!r} / {raised!r}"[:300]))
         elif raised.message != "boom:" + outcome:
             out.append(("status-message", f"{m}: message {raised.message!r}"))
+        elif sstream:
+            before = getattr(raised, "partial_responses", [])
+            n_before = min(1, max(n_out - 1, 0)) if n_out else 0
+            want_before = respond(T, m, want_reqs, n_out)[:n_before]
+            if before != want_before:
+                out.append(("responses-before-error", f"{m}: caller received {before!r} before the error, handler yielded {want_before!r}"[:300]))
         return out
     if raised is not None:
         out.append(("unexpected-status", f"{m}: caller got {raised!r}"[:200]))
@@ -404,6 +445,10 @@ def cases(tier: str) -> List[Dict[str, Any]]:
         if sstream and not cstream:
             out.append({"kind": "call", "method": m, "req_idx": [1], "n_out": 0, "outcome": "returns-without-yield",
                         "as_async": False})
+            for oc in ("returns-aiter-object", "returns-channel"):
+                for nout in (0, 2):
+                    out.append({"kind": "call", "method": m, "req_idx": [1], "n_out": nout, "outcome": oc,
+                                "as_async": False})
     for rm in ("Ping", "Pings"):
         for a in (0, 7):
             out.append({"kind": "root", "method": rm, "a": a})
